@@ -12,14 +12,14 @@ pub struct C17;
 
 const SEC: u64 = 1_000_000_000;
 const INTERVALS: [u16; 7] = [0, 1, 2, 3, 5, 10, 60];
-const PATTERNS: [&str; 4] = ["idle-client-live-server", "server-goes-silent", "server-talks-at-least-every-h", "client-busy-server-heartbeats"];
+const PATTERNS: [&str; 5] = ["idle-client-live-server", "server-goes-silent", "server-talks-at-least-every-h", "client-busy-server-heartbeats", "one-frame-trickling-in"];
 
 impl Scenario for C17 {
     fn property(&self) -> &'static str {
         "C17"
     }
     fn rule(&self) -> String {
-        "Systematic grid: negotiated interval h in {0,1,2,3,5,10,60} s x 4 traffic patterns, each x seeds (offsets, jitter of the real timer wheel's wake-ups, latencies, schedules) on the simulated clock: (1) idle client, server heartbeats every h/2 for 20h: every gap between consecutive client->server bytes <= h + 0.3 s and at least one heartbeat frame per h; (2) server silent from a drawn instant: Connection dies with MissedServerHeartbeats at t in [t_last_inbound + 2h - 0.1 s, t_last_inbound + 2h + 0.3 s]; (3) server sends something (heartbeat, blocked notice) with gaps drawn in (0.1h, 0.98h) for 50h: never declared dead, close = Ok; (4) client publishing with gaps < h while the server only sends heartbeats: no client heartbeat needed, still alive. h = 0: no heartbeat frame in 10 000 s of mutual silence and the connection still closes cleanly. 0.3 s covers the real wheel's 100 ms tick, its +-50 ms wake-up rounding and the 5 ms fudge in Heartbeat::fire. Non-trivial = the run covered >= 20 (pattern 3: 50) intervals of simulated time or reached the death; distinct = (h, pattern, seed).".to_string()
+        "Systematic grid: negotiated interval h in {0,1,2,3,5,10,60} s x 5 traffic patterns, each x seeds (offsets, jitter of the real timer wheel's wake-ups, latencies, schedules) on the simulated clock: (1) idle client, server heartbeats every h/2 for 20h: every gap between consecutive client->server bytes <= h + 0.3 s and at least one heartbeat frame per h; (2) server silent from a drawn instant: Connection dies with MissedServerHeartbeats at t in [t_last_inbound + 2h - 0.1 s, t_last_inbound + 2h + 0.3 s]; (3) server sends something (heartbeat, blocked notice) with gaps drawn in (0.1h, 0.98h) for 50h: never declared dead, close = Ok; (4) client publishing with gaps < h while the server only sends heartbeats: no client heartbeat needed, still alive; (5) one legal frame trickling in one byte at a time with gaps drawn in (0.1h, 0.95h), for 10-50 bytes, i.e. far longer than 2h: never declared dead. h = 0: no heartbeat frame in 10 000 s of mutual silence and the connection still closes cleanly. 0.3 s covers the real wheel's 100 ms tick, its +-50 ms wake-up rounding and the 5 ms fudge in Heartbeat::fire. Non-trivial = the run covered >= 20 (pattern 3: 50) intervals of simulated time or reached the death; distinct = (h, pattern, seed).".to_string()
     }
     fn level(&self) -> &'static str {
         "exploration"
@@ -96,6 +96,31 @@ impl Scenario for C17 {
                             _ => Action::Raw { ch: 0, frames: vec![hbf.clone()] },
                         };
                         broker.script.push((Trigger::AtTime(t), a));
+                    }
+                }
+                owner_ops.push(OwnerOp::ListenBlocked);
+                owner_ops.push(OwnerOp::SleepNs(idle_total));
+            }
+            4 => {
+                // one legal frame whose bytes arrive one at a time, each gap below h, the whole frame
+                // taking far longer than 2h: any inbound byte is liveness
+                let reason = "x".repeat(10 + cs.choose("trickle_len", 40) as usize);
+                let mut f = Vec::new();
+                wire::method(&mut f, 0, &amq_protocol::protocol::AMQPClass::Connection(amq_protocol::protocol::connection::AMQPMethod::Blocked(amq_protocol::protocol::connection::Blocked { reason })));
+                let unit = if h == 0 { SEC } else { hs };
+                let gap = unit / 10 + (cs.choose("trickle_gap_pm", 850) as u64 * unit) / 1000;
+                let cuts: Vec<usize> = (1..f.len()).collect();
+                let total = gap * f.len() as u64;
+                broker.script.push((Trigger::AtTime(SEC / 10), Action::RawStream { bytes: f, cuts, gap_ns: gap, then_eof: false }));
+                idle_total = total + 2 * unit;
+                // afterwards the server keeps talking (heartbeats must not be mixed into the trickling frame)
+                if h > 0 {
+                    let mut hbf = Vec::new();
+                    wire::heartbeat(&mut hbf);
+                    let mut t = SEC / 10 + total + hs / 3;
+                    while t < SEC / 10 + idle_total + 2 * hs {
+                        broker.script.push((Trigger::AtTime(t), Action::Raw { ch: 0, frames: vec![hbf.clone()] }));
+                        t += hs / 2;
                     }
                 }
                 owner_ops.push(OwnerOp::ListenBlocked);
